@@ -1308,3 +1308,28 @@ BENIGN += [
         {"file": CF, "old": '    fgrammar = r"""\n        expression: multiply ((PLUS | MINUS) multiply)*\n', "new": '    fgrammar = _block(_SUM) + r"""'}]},
     {"name": "preprocessing-strips-into-a-local", "file": KR, "old": "        else:\n            return line.strip()\n", "new": "        else:\n            stripped = line.strip()\n            return stripped\n"},
 ]
+
+
+# ---------------------------------------------------------------- third catalogue: the per-file reset as the entry of a `with` block (R4, shared with C17)
+_NF = "naunet/network.py"
+_RESET_OLD = ("        rclass = supported_reaction_class.get(format)\n        if rclass:\n            rclass.initialize()\n        else:\n            raise RuntimeError(f\"Unknown format: {format}\")\n\n"
+              "        with open(filename, \"r\") as networkfile:\n")
+_RESET_NEW = "        rclass = supported_reaction_class.get(format)\n        with _Reading(rclass, format), open(filename, \"r\") as networkfile:\n"
+
+
+def _reading_cm(enter):
+    return ("class _Reading:\n    def __init__(self, rclass, format):\n        self._rclass = rclass\n        self._format = format\n\n    def __enter__(self):\n"
+            "        if not self._rclass:\n            raise RuntimeError(f\"Unknown format: {self._format}\")\n" + enter +
+            "\n    def __exit__(self, exc_type, exc_value, traceback):\n        return False\n\n\ndef define_reaction(name: str):\n")
+
+
+MUTANTS += [
+    {"name": "reset-in-a-context-manager-skipped-for-one-format", "edits": [
+        {"file": _NF, "old": _RESET_OLD, "new": _RESET_NEW},
+        {"file": _NF, "old": "def define_reaction(name: str):\n", "new": _reading_cm("        if self._format != \"krome\":\n            self._rclass.initialize()\n")}], "rules": ["R4"]},
+]
+BENIGN += [
+    {"name": "reset-in-a-context-manager", "edits": [
+        {"file": _NF, "old": _RESET_OLD, "new": _RESET_NEW},
+        {"file": _NF, "old": "def define_reaction(name: str):\n", "new": _reading_cm("        self._rclass.initialize()\n")}]},
+]
